@@ -5,6 +5,7 @@ import (
 	"go/ast"
 	"go/token"
 	"go/types"
+	"sort"
 )
 
 func init() {
@@ -405,4 +406,196 @@ func ruleEmptyMessageRejected(c *Ctx) {
 		c.check(good, key, call.Pos(), why, "a message is handed on without a test that it has any argument: an HTTP request whose path or body holds only blanks (GET /+ HTTP/1.1) parses to an empty argument vector, Message.Command() then indexes Args[0] in the connection goroutine and the whole server process exits")
 	}
 	c.stat("messages_handed_on", n)
+}
+
+// R16.per-command-connection-state
+func init() {
+	register(&Rule{ID: "R16.per-command-connection-state", Props: []string{"C16"}, Floor: 2,
+		Text: "how many commands one read delivers is an accident of the network, so nothing a command can change may be fixed per read: in netServe's connection loop, every field of the connection's Client value that is assigned inside the loop over the commands of one read (the write-back of the output format and of the strict-RESP flag after each command) is read inside that loop when it is used there — no local that was computed from such a field before the loop is used in the loop body. OUTPUT json followed by another command in the same segment must answer in JSON, whatever the segmentation",
+		Run:  rulePerCommandConnectionState})
+}
+
+func rulePerCommandConnectionState(c *Ctx) {
+	ns := c.Func("internal/server", "Server", "netServe")
+	if ns == nil || ns.Decl.Body == nil {
+		c.und("anchors", 0, "netServe not found")
+		return
+	}
+	info := ns.Info()
+	// the loop over the commands of one read: a range over the first result of a ReadMessages call
+	var loops []*ast.RangeStmt
+	msgsVars := map[types.Object]bool{}
+	ast.Inspect(ns.Decl.Body, func(n ast.Node) bool {
+		as, ok := n.(*ast.AssignStmt)
+		if !ok || len(as.Rhs) != 1 || len(as.Lhs) < 1 {
+			return true
+		}
+		if call, ok := ast.Unparen(as.Rhs[0]).(*ast.CallExpr); ok {
+			if f := callee(info, call); f != nil && f.Name() == "ReadMessages" {
+				if id, ok := as.Lhs[0].(*ast.Ident); ok {
+					msgsVars[info.ObjectOf(id)] = true
+				}
+			}
+		}
+		return true
+	})
+	ast.Inspect(ns.Decl.Body, func(n ast.Node) bool {
+		if rs, ok := n.(*ast.RangeStmt); ok {
+			if id, ok := ast.Unparen(rs.X).(*ast.Ident); ok && msgsVars[info.ObjectOf(id)] {
+				loops = append(loops, rs)
+			}
+		}
+		return true
+	})
+	if len(loops) == 0 {
+		c.und("loop", ns.Decl.Pos(), "no range loop over the result of ReadMessages found in netServe")
+		return
+	}
+	isClientField := func(e ast.Expr) *types.Var {
+		fv := selField(info, e)
+		if fv == nil {
+			return nil
+		}
+		if fv == c.Field("internal/server", "Client", fv.Name()) {
+			return fv
+		}
+		return nil
+	}
+	n := 0
+	for _, loop := range loops {
+		// Client fields assigned in the loop body, directly or by a callee through a pointer parameter
+		written := map[*types.Var]bool{}
+		ast.Inspect(loop.Body, func(x ast.Node) bool {
+			switch s := x.(type) {
+			case *ast.AssignStmt:
+				for _, l := range s.Lhs {
+					if fv := isClientField(l); fv != nil {
+						written[fv] = true
+					}
+				}
+			case *ast.CallExpr:
+				f := callee(info, s)
+				if f == nil {
+					return true
+				}
+				passesClient := false
+				for _, a := range s.Args {
+					if tv, ok := info.Types[a]; ok {
+						if p, ok := tv.Type.(*types.Pointer); ok && isNamedType(p.Elem(), modPath+"/internal/server", "Client") {
+							passesClient = true
+						}
+					}
+				}
+				if passesClient {
+					for name := range c.modifiedFields(f, 0) {
+						if fv := c.Field("internal/server", "Client", name); fv != nil {
+							written[fv] = true
+						}
+					}
+				}
+			}
+			return true
+		})
+		if len(written) == 0 {
+			c.und("written", loop.Pos(), "no field of Client is assigned in the command loop: the per-command state of the connection is not recognised")
+			continue
+		}
+		// locals computed before the loop from a written field (transitively through other locals)
+		lit := enclosingFuncLit(c.Program, loop)
+		var scope ast.Node = ns.Decl.Body
+		if lit != nil {
+			scope = lit.Body
+		}
+		stale := map[types.Object]*types.Var{}
+		mentions := func(e ast.Expr) *types.Var {
+			var hit *types.Var
+			ast.Inspect(e, func(m ast.Node) bool {
+				switch y := m.(type) {
+				case *ast.SelectorExpr:
+					if fv := isClientField(y); fv != nil && written[fv] {
+						hit = fv
+					}
+				case *ast.Ident:
+					if fv := stale[info.ObjectOf(y)]; fv != nil {
+						hit = fv
+					}
+				}
+				return hit == nil
+			})
+			return hit
+		}
+		outside := func(x ast.Node) bool { return x.End() <= loop.Pos() || x.Pos() >= loop.End() }
+		for changed := true; changed; {
+			changed = false
+			ast.Inspect(scope, func(x ast.Node) bool {
+				if x == ast.Node(loop) {
+					return false
+				}
+				as, ok := x.(*ast.AssignStmt)
+				if !ok || !outside(as) {
+					return true
+				}
+				for i, l := range as.Lhs {
+					id, ok := ast.Unparen(l).(*ast.Ident)
+					if !ok {
+						continue
+					}
+					var fv *types.Var
+					if len(as.Lhs) == len(as.Rhs) {
+						fv = mentions(as.Rhs[i])
+					} else {
+						for _, r := range as.Rhs {
+							if v := mentions(r); v != nil {
+								fv = v
+							}
+						}
+					}
+					if o := info.ObjectOf(id); fv != nil && o != nil && stale[o] == nil {
+						stale[o] = fv
+						changed = true
+					}
+				}
+				return true
+			})
+		}
+		// a local assigned again inside the loop from the field itself is fresh there: only flag uses of
+		// locals that are never assigned inside the loop
+		assignedInLoop := map[types.Object]bool{}
+		ast.Inspect(loop.Body, func(x ast.Node) bool {
+			if as, ok := x.(*ast.AssignStmt); ok {
+				for _, l := range as.Lhs {
+					if id, ok := ast.Unparen(l).(*ast.Ident); ok {
+						assignedInLoop[info.ObjectOf(id)] = true
+					}
+				}
+			}
+			return true
+		})
+		var fields []string
+		for fv := range written {
+			fields = append(fields, fv.Name())
+		}
+		sort.Strings(fields)
+		for _, name := range fields {
+			fv := c.Field("internal/server", "Client", name)
+			n++
+			var bad *ast.Ident
+			ast.Inspect(loop.Body, func(x ast.Node) bool {
+				if id, ok := x.(*ast.Ident); ok && bad == nil {
+					o := info.ObjectOf(id)
+					if stale[o] == fv && !assignedInLoop[o] && info.Uses[id] != nil {
+						bad = id
+					}
+				}
+				return true
+			})
+			key := "client." + name
+			if bad != nil {
+				c.bad(key, bad.Pos(), "%s is computed from client.%s before the loop over the commands of one read and used inside it, while client.%s is assigned inside the loop: the second and later commands of a segment see the value from before the first — replies depend on how the client's bytes were split into reads", bad.Name, name, name)
+			} else {
+				c.ok(key, loop.Pos(), true, "client.%s is assigned in the command loop and no local computed from it before the loop is used in the loop", name)
+			}
+		}
+	}
+	c.stat("per_command_client_fields", n)
 }
